@@ -678,3 +678,368 @@ func ruleR30(p *Prog) []Ob {
 	}
 	return obs
 }
+
+// ---------------------------------------------------------------------------
+// R1 I8: the fsync that discharges I1–I3 runs with the writer lock held, and the offset Sync returns
+// is read in that same critical section (otherwise a publish that lands in between is acknowledged
+// as durable without being covered by the fsync).
+func (p *Prog) syncUnderWriterLock(logF *bitFlow) []Ob {
+	var obs []Ob
+	r := p.R
+	ls := p.LocksetCached()
+	sum := p.nextOffsetSummary()
+	for _, name := range []string{"Sync", "Publish", "Close"} {
+		fn := r.ImplMethods[name]
+		if fn == nil {
+			continue
+		}
+		ob := Ob{Rule: "R1", Inst: "I8:Log." + name + ":fsync-under-writer-lock", Props: []string{"C06"}, Pos: p.posStr(fn.Pos()), Func: funcLabel(fn), Nontrivial: true}
+		var bad []string
+		n := 0
+		for _, b := range fn.Blocks {
+			for _, ins := range b.Instrs {
+				c, ok := ins.(*ssa.Call)
+				if !ok {
+					continue
+				}
+				clean := false
+				if _, kill := logF.effect(c); kill {
+					clean = true
+				}
+				for _, g := range p.callees(c) {
+					if s, ok := logF.sums[g]; ok && !s.onBad && inModule(g) {
+						clean = true
+					}
+				}
+				if clean {
+					n++
+					if ls.at[c][r.WriterMu] != modeW {
+						bad = append(bad, p.at(c)+": the head log is fsynced without holding the writer lock: a concurrent publish can append after the fsync started and still be covered by the acknowledged offset")
+					}
+				}
+				// the acknowledged offset
+				if name == "Sync" {
+					isNext := false
+					for _, g := range p.callees(c) {
+						if sum[g][0] {
+							isNext = true
+						}
+					}
+					if isNext && ls.at[c][r.WriterMu] != modeW && ls.at[c][r.ReadersMu] == 0 {
+						bad = append(bad, p.at(c)+": the offset Sync acknowledges is read without holding the writer lock")
+					}
+				}
+			}
+		}
+		if n == 0 {
+			continue
+		}
+		if len(bad) > 0 {
+			ob.Status, ob.Msg, ob.Path = Violated, "the fsync and the acknowledged offset are not one critical section of the writer lock", bad
+		} else {
+			ob.Status, ob.Msg = Discharged, fmt.Sprintf("%d fsync call(s), all with the writer lock held exclusively", n)
+		}
+		obs = append(obs, ob)
+	}
+	return obs
+}
+
+// ---------------------------------------------------------------------------
+// R18b: find -> rewrite -> swap of a delete is one critical section of the delete lock.
+func (p *Prog) deleteSerialised() []Ob {
+	r := p.R
+	ls := p.LocksetCached()
+	ob := Ob{Rule: "R18", Inst: "delete-serialised", Props: []string{"C12", "C08"}, Pos: "-", Nontrivial: true}
+	if r.DeleteMu == nil {
+		ob.Status, ob.Msg = Undecided, "the log implementation has no second mutex serialising deletes"
+		return []Ob{ob}
+	}
+	isRewrite := func(g *ssa.Function) bool {
+		return recvNamed(g) == r.Segment && g.Signature.Results().Len() > 0 && namedOf(g.Signature.Results().At(0).Type()) == r.RewriteSegment
+	}
+	takesRewrite := func(g *ssa.Function) bool {
+		for _, pr := range g.Params {
+			if _, ptr := pr.Type().(*types.Pointer); ptr && namedOf(pr.Type()) == r.RewriteSegment {
+				return true
+			}
+		}
+		return false
+	}
+	var bad []string
+	n := 0
+	for _, fn := range p.Funcs {
+		if !srcFunc(fn) || recvNamed(fn) != r.Impl {
+			continue
+		}
+		for _, b := range fn.Blocks {
+			for _, ins := range b.Instrs {
+				c, ok := ins.(*ssa.Call)
+				if !ok {
+					continue
+				}
+				g := c.Common().StaticCallee()
+				if g == nil {
+					continue
+				}
+				what := ""
+				switch {
+				case isRewrite(g):
+					what = "the rewrite of the segment"
+				case takesRewrite(g) && (recvNamed(g) == r.SegReader || recvNamed(g) == r.HeadWriter):
+					what = "the swap that applies the rewrite"
+				default:
+					continue
+				}
+				n++
+				ob.Pos = p.at(c)
+				if ls.at[c][r.DeleteMu] != modeW {
+					bad = append(bad, fmt.Sprintf("%s: %s runs without the delete lock: two overlapping deletes of one segment both rewrite the original file, and the second swap brings back what the first removed and reported", p.at(c), what))
+				}
+			}
+		}
+	}
+	sort.Strings(bad)
+	switch {
+	case n == 0:
+		ob.Status, ob.Msg = Undecided, "no rewrite / swap call found in the log implementation"
+	case len(bad) > 0:
+		ob.Status, ob.Msg, ob.Path = Violated, "choosing the segment, rewriting it and swapping the result in are not one critical section of the delete lock", bad
+	default:
+		ob.Status, ob.Msg = Discharged, fmt.Sprintf("all %d rewrite/swap calls hold the delete lock exclusively", n)
+	}
+	return []Ob{ob}
+}
+
+// ---------------------------------------------------------------------------
+// R11 L5: the size reported for a deleted record is its size in the format it was stored in.
+func (p *Prog) deletedSizeVersion() []Ob {
+	var obs []Ob
+	size := p.pkgFunc(pkgMessage, "Size")
+	for _, cl := range p.copyLoops() {
+		fn := cl.fn
+		for lb := range cl.loop {
+			for _, ins := range lb.Instrs {
+				c, ok := ins.(*ssa.Call)
+				if !ok || size == nil || c.Common().StaticCallee() != size || !cl.isMsg(c.Call.Args[0]) {
+					continue
+				}
+				ob := Ob{Rule: "R11", Inst: "L5:" + funcLabel(fn) + ":deleted-size-version", Props: []string{"C12"}, Pos: p.at(c), Func: funcLabel(fn), Nontrivial: true}
+				v := canon(c.Call.Args[1])
+				okV := false
+				if vc, isC := v.(*ssa.Call); isC && calleeName(vc.Common()) == "(*"+pkgMessage+".Reader).Version" {
+					// of the reader this loop scans
+					if canon(vc.Call.Args[0]) == canon(cl.read.Call.Args[0]) {
+						okV = true
+					}
+				}
+				if okV {
+					ob.Status, ob.Msg = Discharged, "message.Size is asked for the version of the file the record was read from"
+				} else {
+					ob.Status, ob.Msg = Violated, "the storage size of a record read from this segment is computed for a version other than the one its file is stored in (the reported deleted size is then wrong for mixed-version logs)"
+				}
+				obs = append(obs, ob)
+			}
+		}
+	}
+	return obs
+}
+
+// ---------------------------------------------------------------------------
+// R2 O7: Segment.Remove removes the log file on every success path.
+func (p *Prog) removeRemovesLog() Ob {
+	ob := Ob{Rule: "R2", Inst: "O7:Segment.Remove:removes-log", Props: []string{"C12", "C01"}, Pos: "-", Nontrivial: true}
+	fn := p.methodOf(p.R.Segment, "Remove")
+	if fn == nil {
+		ob.Status, ob.Msg = Undecided, "segment.Segment.Remove not found"
+		return ob
+	}
+	ob.Pos, ob.Func = p.posStr(fn.Pos()), funcLabel(fn)
+	ea := p.ErrAtomsCached()
+	fl := &bitFlow{p: p, ea: ea, name: "remove(log)"}
+	fl.effect = func(call ssa.CallInstruction) (bool, bool) {
+		c := call.Common()
+		if calleeName(c) != "os.Remove" || len(c.Args) == 0 {
+			// a helper that removes its string parameter
+			if g := c.StaticCallee(); g != nil && inModule(g) && len(c.Args) > 0 {
+				pc := p.classifyPath(c.Args[0])
+				if pc.kind == "seg" && pc.fld == "Log" && p.reaches(g, isFunc("os.Remove")) {
+					return false, true
+				}
+			}
+			return false, false
+		}
+		pc := p.classifyPath(c.Args[0])
+		return false, pc.kind == "seg" && pc.fld == "Log"
+	}
+	fl.sums = map[*ssa.Function]bitSumm{}
+	for _, g := range p.Funcs {
+		fl.sums[g] = bitSumm{false, true}
+	}
+	if bad, rets := fl.run(fn, true, nil, nil); bad {
+		ob.Status, ob.Msg = Violated, "Segment.Remove can return success without removing the log file: the segment is found again on the next open, and messages a Delete reported come back"
+		for _, rt := range rets {
+			ob.Path = append(ob.Path, "success return at "+p.at(rt))
+		}
+	} else {
+		ob.Status, ob.Msg = Discharged, "every success return is preceded by os.Remove of the segment's log file"
+	}
+	return ob
+}
+
+// ---------------------------------------------------------------------------
+// R10f: an error of the record decoder other than io.EOF always fails the call that met it
+// (a damaged record in the middle of a range read must not turn into a shorter, successful answer).
+func (p *Prog) decoderErrorsPropagate() []Ob {
+	var obs []Ob
+	ea := p.ErrAtomsCached()
+	isDecoder := map[*ssa.Function]bool{}
+	for _, d := range p.R.RecDecoders {
+		isDecoder[d] = true
+	}
+	n := 0
+	for _, fn := range p.Funcs {
+		if !srcFunc(fn) || isDecoder[fn] {
+			continue
+		}
+		for _, b := range fn.Blocks {
+			for _, ins := range b.Instrs {
+				c, ok := ins.(*ssa.Call)
+				if !ok {
+					continue
+				}
+				calls := false
+				for _, g := range p.callees(c) {
+					if isDecoder[unwrapSynthetic(g)] {
+						calls = true
+					}
+				}
+				if !calls {
+					continue
+				}
+				errv := errResultOfCall(c)
+				if errv == nil {
+					continue
+				}
+				n++
+				ob := Ob{Rule: "R10", Inst: "f:decoder-error-propagates:" + funcLabel(fn), Props: []string{"C14"}, Pos: p.at(c), Func: funcLabel(fn), Nontrivial: true}
+				// blocks reached with err known non-nil and not (yet) known to be io.EOF
+				var starts []*ssa.BasicBlock
+				for _, tb := range fn.Blocks {
+					iff, ok := terminator(tb).(*ssa.If)
+					if !ok {
+						continue
+					}
+					if t, ok := classifyErrCond(iff.Cond, errv); ok && t.kind == "nil" {
+						if t.trueMeans {
+							starts = append(starts, tb.Succs[1])
+						} else {
+							starts = append(starts, tb.Succs[0])
+						}
+					}
+				}
+				var bad []string
+				seen := map[*ssa.BasicBlock]bool{}
+				var walk func(x *ssa.BasicBlock)
+				walk = func(x *ssa.BasicBlock) {
+					if seen[x] || x == c.Block() {
+						return
+					}
+					seen[x] = true
+					if rt, ok := terminator(x).(*ssa.Return); ok && x != fn.Recover {
+						if !ea.isFailureReturn(fn, rt) {
+							ei := errResultIndex(fn)
+							if !(ei >= 0 && derivesFromErr(returnOperand(rt, ei), errv, 0)) {
+								bad = append(bad, p.at(rt)+": returns success although the decoder reported an error that is not io.EOF")
+							}
+						}
+						return
+					}
+					if iff, ok := terminator(x).(*ssa.If); ok {
+						if t, ok := classifyErrCond(iff.Cond, errv); ok && (t.kind == "is" || t.kind == "eq") && t.target == "X:io.EOF" {
+							// only follow the not-EOF edge
+							if t.trueMeans {
+								walk(x.Succs[1])
+							} else {
+								walk(x.Succs[0])
+							}
+							return
+						}
+					}
+					for _, s := range x.Succs {
+						walk(s)
+					}
+				}
+				for _, s := range starts {
+					walk(s)
+				}
+				sort.Strings(bad)
+				if len(bad) > 0 {
+					ob.Status, ob.Msg, ob.Path = Violated, "a decoder failure is swallowed: a read whose answer would include a damaged record succeeds with less", uniqStrings(bad)
+				} else {
+					ob.Status, ob.Msg = Discharged, "on a decoder error other than io.EOF every path ends in a failure return"
+				}
+				obs = append(obs, ob)
+			}
+		}
+	}
+	if n == 0 {
+		obs = append(obs, Ob{Rule: "R10", Inst: "f:decoder-error-propagates", Props: []string{"C14"}, Pos: "-", Status: Undecided, Msg: "no caller of the record decoders found"})
+	}
+	return dedupObs(obs)
+}
+
+// ---------------------------------------------------------------------------
+// R32 LAZY-LOG (C14): a segment's log file is opened only after its index said the answer may be in it.
+func ruleR32(p *Prog) []Ob {
+	var obs []Ob
+	r := p.R
+	ea := p.ErrAtomsCached()
+	getter := p.inuseGetter()
+	if getter == nil {
+		return []Ob{{Rule: "R32", Inst: "lazy-log", Props: []string{"C14"}, Pos: "-", Status: Undecided, Msg: "the message-reader getter was not found"}}
+	}
+	idxIface := namedOf(r.SRIndex.Type())
+	n := 0
+	for _, fn := range p.Funcs {
+		if !srcFunc(fn) {
+			continue
+		}
+		for _, b := range fn.Blocks {
+			for _, ins := range b.Instrs {
+				c, ok := ins.(*ssa.Call)
+				if !ok || c.Common().StaticCallee() != getter {
+					continue
+				}
+				n++
+				ob := Ob{Rule: "R32", Inst: "lazy-log:" + funcLabel(fn), Props: []string{"C14"}, Pos: p.at(c), Func: funcLabel(fn), Nontrivial: true}
+				okDom := false
+				for _, b2 := range fn.Blocks {
+					for _, i2 := range b2.Instrs {
+						lk, ok := i2.(*ssa.Call)
+						if !ok || !lk.Common().IsInvoke() || namedOf(lk.Common().Value.Type()) != idxIface {
+							continue
+						}
+						// a lookup: returns a position / positions (not merely the next offset)
+						res := lk.Common().Method.Type().(*types.Signature).Results()
+						if res.Len() < 2 || lk.Common().Method.Type().(*types.Signature).Params().Len() == 0 {
+							continue
+						}
+						if instrDominates(lk, c) && p.failureEdgeLeaves(ea, lk, c) {
+							okDom = true
+						}
+					}
+				}
+				if okDom {
+					ob.Status, ob.Msg = Discharged, "the log file is opened only after a successful lookup in the segment's index"
+				} else {
+					ob.Status, ob.Msg = Violated, "a segment's log file is opened before (or without) its index being consulted: damage to that file then fails lookups whose answer lies entirely in other segments"
+				}
+				obs = append(obs, ob)
+			}
+		}
+	}
+	if n == 0 {
+		obs = append(obs, Ob{Rule: "R32", Inst: "lazy-log", Props: []string{"C14"}, Pos: "-", Status: Undecided, Msg: "the message-reader getter has no callers"})
+	}
+	return obs
+}
